@@ -92,6 +92,9 @@ func LoadEngine(repo string, patterns []string, extraSpecs []string) (*Engine, e
 			eng.specFiles = append(eng.specFiles, m)
 		}
 	}
+	if err := eng.mergeInterfaceContracts(); err != nil {
+		return nil, err
+	}
 	// deterministic type tags for all named types (and pointers to them) of the repo packages
 	for _, p := range pkgs {
 		if p.Types == nil {
@@ -311,32 +314,6 @@ func (eng *Engine) runTop(c *FnCtx, fn *ssa.Function, fs *FuncSpec) {
 	for _, r := range fs.Requires {
 		c.addFact(env.evalBool(r.Expr))
 	}
-	// behavioural subtyping: the method also answers to its interface contract
-	var ifs *FuncSpec
-	ifaceVars := map[string]Val{}
-	if fs.Implements != "" {
-		ifs = eng.spec.Funcs[fs.Pkg+"::iface:"+fs.Implements]
-		if ifs == nil {
-			panic(specErr("implements: no interface contract %s", fs.Implements))
-		}
-		for i, p := range ifs.Params {
-			if i >= len(args) {
-				break
-			}
-			a := args[i]
-			if i == 0 && fn.Signature.Recv() != nil {
-				if _, isI := a.T.Underlying().(*types.Interface); !isI {
-					a = c.makeInterface(a, a.T, types.NewInterfaceType(nil, nil))
-				}
-			}
-			ifaceVars[p.Name] = a
-			env.vars[p.Name] = a
-		}
-		c.modLocs = append(c.modLocs, env.evalModLocs(ifs.Modifies, ifs.ModSrc)...)
-		for _, r := range ifs.Requires {
-			c.addFact(env.evalBool(r.Expr))
-		}
-	}
 	eng.assumeGlobals(c, st)
 	// closures: free variables
 	var bindings []Val
@@ -381,20 +358,12 @@ func (eng *Engine) runTop(c *FnCtx, fn *ssa.Function, fs *FuncSpec) {
 				c.useLemma(u, renv)
 			}
 		}
-		for k, v := range ifaceVars {
-			renv.vars[k] = v
-		}
 		for i, en := range fs.Ensures {
 			label := en.Name
 			if label == "" {
 				label = fmt.Sprintf("ensures%d", i+1)
 			}
 			c.oblige("ensures", label, clauseTags(en, c.tags), r.cond, renv.evalBool(en.Expr), f.pos(fn.Pos()), en.Src)
-		}
-		if ifs != nil {
-			for i, en := range ifs.Ensures {
-				c.oblige("ensures", fmt.Sprintf("%s.ensures%d", fs.Implements, i+1), clauseTags(en, c.tags), r.cond, renv.evalBool(en.Expr), f.pos(fn.Pos()), "interface contract "+fs.Implements+": "+en.Src)
-			}
 		}
 		for _, fr := range fs.Fresh {
 			v, ok := renv.vars[fr]
@@ -577,6 +546,35 @@ func rootGlobal(v ssa.Value) *ssa.Global {
 		return rootGlobal(t.X)
 	case *ssa.IndexAddr:
 		return rootGlobal(t.X)
+	}
+	return nil
+}
+
+// mergeInterfaceContracts folds the interface contract named by "implements" into each implementing
+// method's contract (behavioural subtyping): interface requires/modifies/ensures become part of the method's
+// contract, both when the method itself is verified and at static call sites of the method.
+func (eng *Engine) mergeInterfaceContracts() error {
+	for _, k := range eng.spec.Order {
+		fs := eng.spec.Funcs[k]
+		if fs.Implements == "" {
+			continue
+		}
+		ifs := eng.spec.Funcs[fs.Pkg+"::iface:"+fs.Implements]
+		if ifs == nil {
+			return fmt.Errorf("%s: implements: no interface contract %s", fs.Key, fs.Implements)
+		}
+		fs.Params = ifs.Params
+		fs.Requires = append(append([]Clause{}, ifs.Requires...), fs.Requires...)
+		for i, en := range ifs.Ensures {
+			c := en
+			if c.Name == "" {
+				c.Name = fmt.Sprintf("%s.ensures%d", fs.Implements, i+1)
+			}
+			c.Src = "interface contract " + fs.Implements + ": " + en.Src
+			fs.Ensures = append(fs.Ensures, c)
+		}
+		fs.Modifies = append(fs.Modifies, ifs.Modifies...)
+		fs.ModSrc = append(fs.ModSrc, ifs.ModSrc...)
 	}
 	return nil
 }
